@@ -80,6 +80,7 @@ theorem observe_inv (l : LL) (h : l.Inv) (o : Obs) : (l.observe o).2.Inv ∧ (l.
     split
     · exact ⟨fi, fs⟩
     · exact pullN_inv _ l h
+  | nop => exact ⟨h, rfl⟩
 
 /-- **one observation**: the lazy list answers what the list answers -/
 theorem step_correct (l : LL) (h : l.Inv) (o : Obs) (ho : Obs.isForwardSlice o = false) :
@@ -129,6 +130,7 @@ theorem step_correct (l : LL) (h : l.Inv) (o : Obs) (ho : Obs.isForwardSlice o =
     have := (getItem_spec (LL.fresh l.src) (fresh_inv l.src) i).1
     simp only [LL.observe]
     rw [this]; rfl
+  | nop => rfl
 
 /-- **all histories**: every answer of every observation that is not a forward slice equals the list's
     answer, whatever was observed before (forward slices included), and the denoted sequence never changes -/
